@@ -4,6 +4,7 @@
        attempt (a thread is about to call SynthDef), enter / mid / leave (observations made INSIDE
        the graph function: is the global context this definition, is the build lock held),
        exit (result: raised, sha of the bytes, units of this function attached elsewhere),
+       read (another user of the lock/context finished: add / store / new_from read-back, reader on bytes/files),
        probe (nobody is building: context, lock, owner of a unit created right now), hang
    kind "det": for one program the results of building it in different histories, threads,
        processes (hash seeds) and modes
@@ -11,7 +12,7 @@
    The reconstructed protocol state (pc per thread, lock, ctx, fin) is judged with the predicates
    of Build.tla: ExclusiveOK, IdleOK, DetOK.                                                  *)
 EXTENDS Naturals, Integers, Sequences, FiniteSets, TLC, Json, IOUtils
-Threads == {} Funcs == {} MaxAttempts == 0 ClearOnFail == TRUE UseLock == TRUE
+Threads == {} Funcs == {} MaxAttempts == 0 ClearOnFail == TRUE ClearOnReadFail == TRUE UseLock == TRUE
 VARIABLES lock, ctx, pc, att, nb, owner, fin, natt, orphans
 B == INSTANCE Build
 Traces == JsonDeserialize(IOEnv.VERIF_TRACES)
@@ -48,11 +49,16 @@ Apply(e) ==
             ELSE IF e.lost # 0 THEN R("isolation:unit-attached-elsewhere", p2, lk, cx, f2)
             ELSE IF ~B!DetOK(f2) THEN R("nondeterministic", p2, lk, cx, f2)
             ELSE R("ok", p2, lk, cx, f2)
+      \* another user of the lock / context (read-back of add / store / new_from, the reader on bytes or files,
+      \* valid or damaged) ran to its end, successfully or not: nothing is claimed about its result, everything about
+      \* what the next probe finds
+      [] e.e = "read" -> R(IF pc[e.t] # "idle" THEN "recorder:read-while-building" ELSE "ok", pc, lock, ctx, fin)
       [] e.e = "probe" ->
             IF \E t \in DOMAIN pc : pc[t] # "idle" THEN R("ok", pc, lock, ctx, fin)      \* somebody may be building: no claim
             ELSE IF ~B!IdleOK(IF e.lock_free = 1 THEN 0 ELSE 1, IF e.ctx_none = 1 THEN 0 ELSE 1, pc)
                  THEN R(IF e.lock_free # 1 THEN "residue:lock-held" ELSE "residue:context-left", pc, lock, ctx, fin)
             ELSE IF e.orphan # 0 THEN R("residue:orphan-unit-owned", pc, lock, ctx, fin)
+            ELSE IF e.wrap # 0 THEN R("residue:wrap-works-outside-build", pc, lock, ctx, fin)
             ELSE R("ok", pc, lock, ctx, fin)
       [] e.e = "hang" -> R("hang", pc, lock, ctx, fin)
       [] e.e = "gc" -> R(IF e.raised # 0 \/ e.b # e.n THEN "repeated-builds-crash" ELSE "ok", pc, lock, ctx, fin)
